@@ -24,6 +24,9 @@ CallClauses(e) ==
 Clauses(e) ==
   CASE e.kind = "law" -> IF e.name \notin Laws THEN {"unknown-law"} ELSE IF e.ppt > 1000 THEN {e.name} ELSE {}
     [] e.kind = "call" -> CallClauses(e)
+    \* fall-back when the draws are not recognisable: the statement's statistical clause, judged by the harness against reference realisations
+    [] e.kind = "callstat" -> (IF ~e.len_ok THEN {"output-length"} ELSE {}) \cup (IF ~e.var_ok THEN {"noise-variance-statistical"} ELSE {}) \cup
+                              (IF ~e.offset_ok THEN {"dark-current-offset"} ELSE {})
     [] e.kind = "verdict" -> IF e.raised # Verdict(e.fault) THEN {"verdict-" \o e.fault} ELSE {}
 Bad == UNION {{<<i, c>> : c \in Clauses(Trace[i])} : i \in 1..Len(Trace)}
 ASSUME JsonSerialize(IOEnv.OUT_FILE, [n |-> Len(Trace), bad |-> Bad])
